@@ -39,7 +39,9 @@ def serialise(typ, data, variant):
     if typ == "json":
         return json.dumps(data, indent=1).encode()
     if typ == "json5":
-        return ("// json5\n" + json.dumps(data, indent=1).replace('"name"', "name") + "\n").encode()
+        # raw UTF-8 rather than \uXXXX escapes: the json5 library turns an escaped surrogate pair into two lone surrogates
+        # (third-party root cause of known finding F23)
+        return ("// json5\n" + json.dumps(data, indent=1, ensure_ascii=False).replace('"name"', "name") + "\n").encode("utf-8")
     if typ == "yaml":
         return yaml.safe_dump(data, default_flow_style=False).encode()
     if typ == "plist":
